@@ -125,7 +125,9 @@ def sig_fn(tr, event, stuck):
     kind = m.get("kind") if isinstance(m, dict) else None
     mut = (m.get("mutation") or "").split("@")[0] if isinstance(m, dict) else None
     st = (stuck or {}).get("st") or {}
-    return {"kind": kind if mut == "wellformed" else "*", "mutation": mut, "status": event.get("status"), "outcome": st.get("outcome") if isinstance(st, dict) else None}
+    import re as _re
+    exc = _re.sub(r"\d+", "N", (m.get("raised") or "") if isinstance(m, dict) else "")[:90]
+    return {"kind": kind if mut == "wellformed" else "*", "exc": exc, "mutation": mut, "status": event.get("status"), "outcome": st.get("outcome") if isinstance(st, dict) else None}
 
 
 def main(tier: str, seed: int) -> int:
